@@ -1,5 +1,6 @@
 import Mathlib.Tactic.LinearCombination
 import DilithiumVerif.Lemmas.VerifyW
+import DilithiumVerif.Lemmas.HintCodec
 /-
   Lemmas.Complete — an accepted signing iteration produces (c̃, z, h) from which the verifier's arithmetic
   reconstructs exactly the signer's w1.
@@ -60,6 +61,8 @@ structure SignFacts (p : Params) (mat : List PolyVec) (s1 s2 t0 : PolyVec) (mu s
   zl : z.length = p.l
   zb : ∀ a ∈ z, PolyOK ((p.gamma1 : Int) - p.beta) a
   hint : All3 (fun x0 x1 hp => All3 (fun x y z => z = make_hint p.lvl x y) x0 x1 hp) a0 w1 h
+  hbits : ∀ hp ∈ h, HintCodec.Bits hp
+  hw : (HintCodec.idxOf h).length ≤ p.omega
   w1l : w1.length = p.k
   rows : ∀ r, r < p.k → (w1.getD r []).length = 256 ∧ (a0.getD r []).length = 256 ∧
     (∀ n, n < 256 → 0 ≤ (w1.getD r []).getD n 0 ∧ (w1.getD r []).getD n 0 < mOf p.lvl ∧
@@ -186,7 +189,22 @@ theorem sign_facts (p : Params) (hp : p ∈ allParams) (mat : List PolyVec) (hma
   obtain ⟨sg, hpack, hacc⟩ := bind_eq_ok.mp hacc
   injection hacc with hacc; injection hacc with hacc; subst hacc
   have ha0l : a0.length = p.k := by rw [ra0.length.2, hr0l]
-  refine ⟨ct, cp, z, h, w1, a0, ⟨hct, hcp, hpack, hzl, hzb, k_make_hint_rel p.lvl a0 w1 h n ehint, hw1l, ?_⟩⟩
+  rename_i hnw
+  have hrel := k_make_hint_rel p.lvl a0 w1 h n ehint
+  have hcount := HintCodec.k_make_hint_count p.lvl a0 w1 0 h n ehint
+  have hbits : ∀ hp ∈ h, HintCodec.Bits hp := by
+    intro hp hhp
+    refine ⟨?_, hcount.2 hp hhp⟩
+    obtain ⟨r, hr, rfl⟩ := List.mem_iff_getElem.mp hhp
+    have hr' : r < a0.length := by rw [← hrel.length.2]; exact hr
+    have f := hrel.getD [] [] [] r hr'
+    have e : h.getD r [] = h[r] := by rw [List.getD_eq_getElem?_getD, List.getElem?_eq_getElem hr]; rfl
+    rw [← e, f.length.2]
+    exact (ra0.out (C := fun x => PolyOK ((p.gamma2 : Int) - p.beta + p.gamma2) x) (fun _ _ _ h => h.1) _ (getD_mem a0 r [] hr')).1
+  have hwt : (HintCodec.idxOf h).length ≤ p.omega := by
+    have := hcount.1
+    omega
+  refine ⟨ct, cp, z, h, w1, a0, ⟨hct, hcp, hpack, hzl, hzb, hrel, hbits, hwt, hw1l, ?_⟩⟩
   intro r hr
   have hrw : r < w.length := by rw [hwl]; exact hr
   have fdec := rdec.getD [] [] [] r hrw
